@@ -8,7 +8,7 @@ CONSTANTS Kinds,            \* getter kinds of the instance
           NV,               \* number of pool values; values are 1..NV
           MaxOcc,           \* maximum number of occurrences of the parameter
           Conv(_, _),       \* Conv(kind, value) = [ok, v]: the reference conversion table
-          Bounds            \* candidate min/max values
+          Bounds(_)         \* candidate min/max values of a bounded kind
 
 VARIABLES present, vals,    \* the parameter: absent, or its values
           call,             \* "none" | the call made
@@ -25,7 +25,7 @@ Init == /\ \/ present = FALSE /\ vals = <<>>
            \/ present = TRUE /\ vals \in UNION {[1..n -> 1..NV] : n \in 1..MaxOcc}
         /\ call = NoCall /\ last = Out("none", "", 0, <<>>, FALSE) /\ store = Unset
 
-ConvsOf(kind) == [i \in 1..Len(vals) |-> Conv(IF kind = "list_int" THEN "int" ELSE IF kind = "list" THEN "str" ELSE kind, vals[i])]
+ConvsOf(kind) == IF kind = "has" THEN <<>> ELSE [i \in 1..Len(vals) |-> Conv(IF kind = "list_int" THEN "int" ELSE IF kind = "list" THEN "str" ELSE kind, vals[i])]
 
 Get(c) ==
     /\ call = NoCall /\ c.kind \in Kinds
@@ -37,13 +37,15 @@ Get(c) ==
 Plain(kind, r, d, s) == [NoCall EXCEPT !.kind = kind, !.required = r, !.hasdef = d, !.store = s]
 
 GetPlain(kind) == \E r, d, s \in BOOLEAN : Get(Plain(kind, r, d, s))
+HasParam == Get([NoCall EXCEPT !.kind = "has"])
 GetBool == \E r, d, s, b \in BOOLEAN : Get([Plain("bool", r, d, s) EXCEPT !.bat = b])
 GetBounded(kind) ==
-    \E r, d, s, hmin, hmax \in BOOLEAN : \E mn, mx \in Bounds :
+    \E r, d, s, hmin, hmax \in BOOLEAN : \E mn, mx \in Bounds(kind) :
         /\ (~hmin => mn = 0) /\ (~hmax => mx = 0)
         /\ Get([Plain(kind, r, d, s) EXCEPT !.hasmin = hmin, !.min = mn, !.hasmax = hmax, !.max = mx])
 
-Next == \/ \E k \in Kinds \ (BoundedKinds \cup {"bool"}) : GetPlain(k)
+Next == \/ \E k \in Kinds \ (BoundedKinds \cup {"bool", "has"}) : GetPlain(k)
+        \/ HasParam
         \/ GetBool \/ GetBounded("int") \/ GetBounded("float")
 Spec == Init /\ [][Next]_vars
 
@@ -54,7 +56,7 @@ LastConv == Conv(call.kind, vals[Len(vals)])
 (* a value is only ever reported for a present parameter whose last occurrence converts, and it IS
    that conversion, within the bounds asked for *)
 GetterNeverMisreports ==
-    (Made /\ last.res = "value" /\ call.kind \notin ListKinds) =>
+    (Made /\ last.res = "value" /\ call.kind \notin ListKinds \cup {"has"}) =>
         /\ present /\ LastConv.ok
         /\ (call.kind # "bool" \/ LastConv.v # 2) => last.v = LastConv.v
         /\ (call.kind = "bool" /\ LastConv.v = 2) => last.v = (IF call.bat THEN 1 ELSE 0)
@@ -63,8 +65,10 @@ GetterNeverMisreports ==
 ListsReportAll ==
     (Made /\ last.res = "value" /\ call.kind \in ListKinds) => present /\ Len(last.vs) = Len(vals)
 (* absent parameter: error iff required, else exactly the default *)
+HasParamExact ==
+    (Made /\ call.kind = "has") => last.res = "value" /\ last.v = (IF present THEN 1 ELSE 0) /\ ~store.set
 AbsentProtocol ==
-    (Made /\ ~present) => last.res = (IF call.required THEN "missing" ELSE IF call.hasdef THEN "default" ELSE "none")
+    (Made /\ ~present /\ call.kind # "has") => last.res = (IF call.required THEN "missing" ELSE IF call.hasdef THEN "default" ELSE "none")
 (* present parameter: required/default play no role; the outcome is a value or the 400-class error *)
 PresentProtocol ==
     (Made /\ present) => last.res \in {"value", "invalid"}
@@ -73,6 +77,6 @@ StoreOnlyOnSuccess ==
     Made => (store.set <=> (last.res = "value" /\ call.store))
 (* only the last occurrence matters for the scalar getters *)
 LastOccurrenceOnly ==
-    (Made /\ present /\ call.kind \notin ListKinds) =>
+    (Made /\ present /\ call.kind \notin ListKinds \cup {"has"}) =>
         last = Outcome(TRUE, <<LastConv>>, call)
 =============================================================================
